@@ -128,6 +128,20 @@ def fix_frames(seed):
         r, o = rec.fix(filt={"names": ["/*"]}); d.append("lose C, sub/F, corrupt B; fix -f '/*' -> %s" % o["exit"])
         r, o = rec.fix(filt={"names": ["/s*/F"]}); d.append("fix -f '/s*/F' -> %s" % o["exit"])
         r, o = rec.check(filt={"names": ["/*"]}); d.append("check -f '/*' -> %s" % o["exit"])
+        again()
+        # 7. a file that came back as a copy of itself (same bytes, size and time stamp, another inode) rots silently: scrub finds it,
+        #    fix -e repairs it (the file IS the recorded version: size and time stamp are what counts, not the inode number)
+        import os as _os
+        pb = a.path(0, "B"); stb = _os.lstat(pb)
+        data = open(pb, "rb").read()
+        with open(pb + ".new", "wb") as fh:
+            fh.write(data)
+        _os.utime(pb + ".new", ns=(stb.st_mtime_ns, stb.st_mtime_ns)); _os.replace(pb + ".new", pb)
+        rec.env("B replaced by a copy of itself (new inode)")
+        a.corrupt_block(0, "B", 1 if n2 > 1 else 0, "flip"); rec.env("corrupt B", damage=True)
+        r, o = rec.scrub("full"); d.append("B re-created as a copy of itself, then corrupted; scrub -> %s" % o["exit"])
+        r, o = rec.fix(filt={"bad": "file"}); d.append("fix -e -> %s" % o["exit"])
+        r, o = rec.check(); d.append("check -> %s" % o["exit"])
     finally:
         snap.destroy()
         a.destroy()
@@ -401,7 +415,7 @@ def twins_swapped_fix(seed):
     r, o = rec.sync(); d.append("sync -> %s" % o["exit"])
     px, py = a.path(0, "X"), a.path(0, "Y")
     os.rename(px, px + ".t"); os.rename(py, px); os.rename(px + ".t", py)
-    rec.env("X and Y exchange their names", damage=True); d.append("swap X <-> Y")
+    rec.env("X and Y exchange their names"); d.append("swap X <-> Y")
     r, o = rec.diff(); d.append("diff -> %s" % o["exit"])
     r, o = rec.check(); d.append("check -> %s" % o["exit"])
     r, o = rec.fix(); d.append("fix -> %s" % o["exit"])
@@ -413,6 +427,55 @@ def twins_swapped_fix(seed):
     # the same exchange followed by a sync instead of a fix: two moves, nothing is read, everything stays right
     os.rename(px, px + ".t"); os.rename(py, px); os.rename(px + ".t", py)
     rec.env("X and Y exchange their names again"); d.append("swap X <-> Y")
+    r, o = rec.diff(); d.append("diff -> %s" % o["exit"])
+    a.clock += 10
+    r, o = rec.sync(); d.append("sync -> %s" % o["exit"])
+    r, o = rec.check(); d.append("check -> %s" % o["exit"])
+    a.destroy()
+    return rec, d
+
+
+def uuid_appears(seed):
+    """C11 / C19: the array was synced while its disks reported no UUID; inode numbers recorded then must not be trusted when a
+    UUID appears (or when it changes): two files with the same size and time stamp that ended up with each other's inode numbers
+    (bytes and paths as recorded) are not "moved", diff says equal and a sync changes nothing"""
+    import os
+    conf = arr.Conf(nd=2, np=1, copies=2)
+    conf.inomode = True
+    a = arr.Array(conf, seed=seed)
+    a.nouuid = True
+    a.write_file(0, "X", [1, 2], mtime=11)
+    a.write_file(0, "Y", [3, 4], mtime=11)
+    a.write_file(1, "C", [5, 6, 7], mtime=13)
+    rec = recorder.Recorder(a)
+    d = ["init X Y (same size, same stamp) / C, disks without UUID"]
+    r, o = rec.sync(); d.append("sync -> %s" % o["exit"])
+    a.clock += 10
+    r, o = rec.sync(); d.append("sync -> %s" % o["exit"])
+
+    def exchange():
+        px, py = a.path(0, "X"), a.path(0, "Y")
+        bx, by = open(px, "rb").read(), open(py, "rb").read()
+        st = os.lstat(px)
+        os.rename(px, px + ".t"); os.rename(py, px); os.rename(px + ".t", py)
+        for p, b in ((px, bx), (py, by)):
+            with open(p, "r+b") as f:
+                f.write(b)
+            os.utime(p, ns=(st.st_mtime_ns, st.st_mtime_ns))
+    exchange()
+    rec.env("X and Y get each other's inode numbers (paths, bytes and stamps as recorded)"); d.append("exchange inode numbers of X and Y")
+    a.nouuid = False
+    rec.env("the disks report a UUID now"); d.append("UUIDs appear")
+    r, o = rec.diff(); d.append("diff -> %s" % o["exit"])
+    a.clock += 10
+    r, o = rec.sync(); d.append("sync -> %s" % o["exit"])
+    r, o = rec.check(); d.append("check -> %s" % o["exit"])
+    # now the UUIDs are recorded: the same exchange again IS two moves for the scan (identity by inode, size and stamp) - by the
+    # rules of the tool the hashes follow the inode numbers; then the data lines are reordered (= other UUIDs): path again
+    a.data_reversed = True; a.write_conf()
+    rec.env("data lines reordered: the UUIDs differ from the recorded ones"); d.append("UUIDs change")
+    exchange()
+    rec.env("inode numbers exchanged again"); d.append("exchange inode numbers of X and Y")
     r, o = rec.diff(); d.append("diff -> %s" % o["exit"])
     a.clock += 10
     r, o = rec.sync(); d.append("sync -> %s" % o["exit"])
